@@ -185,4 +185,234 @@ Definition penalized_eval (f : vec -> A) (feasible : vec -> bool) (closest : vec
   let unp := f t in
   (unp, unp + penalty * normsqr (vsub t s)).
 
+(* ================================================================ Cholesky-factor optimizers (CMSA, ElitistCMA / CMAChromosome) *)
+(* A lower triangular factor L (n x n) is stored as the list of its TRAILING COLUMNS:
+   column j = [L(j,j); L(j+1,j); ...; L(n-1,j)]   (the part on and below the diagonal; the C++ matrix is column major).
+   [fcov] is the covariance L L^T it represents, as a full matrix. *)
+Definition eqb0 (x : A) : bool := negb (o_ltb O x 0) && negb (o_ltb O 0 x).   (* x == 0 *)
+Definition leb0 (x : A) : bool := negb (o_ltb O 0 x).                          (* x <= 0 *)
+
+(* remora cholesky_decomposition::update(alpha, beta, v), main loop, as coded ("stolen from Eigen"):
+   [bp] is beta_prime, [temp] the not yet consumed tail of the work vector; None = the std::invalid_argument
+   "update makes matrix indefinite". *)
+Fixpoint chol_loop (a beta bp : A) (cols : list vec) (temp : vec) : option (list vec) :=
+  match cols, temp with
+  | (l0 :: c0) :: cols', wj :: t =>
+      let ljj := a * l0 in
+      let dj := ljj * ljj in
+      let swj2 := beta * wj * wj in
+      let gamma := dj * bp + swj2 in
+      let x := dj + swj2 / bp in
+      if leb0 x then None else
+      let nl := o_sqrt O x in
+      let bp' := bp + swj2 / dj in
+      let c1 := vscale a c0 in                                   (* subrange(column(L,j),j+1,n) *= a *)
+      let t' := vsub t (vscale (wj / ljj) c1) in                 (* temp -= (wj/Ljj) * column *)
+      let c2 := if eqb0 gamma then c1
+                else vadd (vscale (nl / ljj) c1) (vscale (nl * beta * wj / gamma) t') in
+      match chol_loop a beta bp' cols' t' with
+      | Some r => Some ((nl :: c2) :: r)
+      | None => None
+      end
+  | _, _ => Some []
+  end.
+
+(* cholesky_decomposition::update:  L L^T  <-  alpha L L^T + beta v v^T *)
+Definition chol_update (alpha beta : A) (cols : list vec) (v : vec) : option (list vec) :=
+  if eqb0 beta then Some (map (vscale (o_sqrt O alpha)) cols)     (* m_cholesky *= sqrt(alpha) *)
+  else chol_loop (o_sqrt O alpha) beta 1 cols v.
+
+(* L^T x for trailing columns, and the quadratic form x^T (L L^T) x = |L^T x|^2 *)
+Fixpoint ltx (cols : list vec) (x : vec) : vec :=
+  match cols, x with
+  | c :: cs, x0 :: xs => dot c (x0 :: xs) :: ltx cs xs
+  | _, _ => []
+  end.
+Definition fquad (cols : list vec) (x : vec) : A := normsqr (ltx cols x).
+
+(* L z  (triangular_prod<lower>(L, z)) *)
+Fixpoint lmulz (cols : list vec) (z : vec) : vec :=
+  match cols, z with
+  | c :: cs, z0 :: zs => vadd (vscale z0 c) (0 :: lmulz cs zs)
+  | _, _ => []
+  end.
+
+(* ---------------------------------------------------------------- CMSA::updatePopulation *)
+(* offspring payload: (search point, (step, individual sigma)) *)
+Fixpoint cmsa_cov_loop (beta : A) (cols : list vec) (steps : list vec) : option (list vec) :=
+  match steps with
+  | [] => Some cols
+  | y :: ys => match chol_update 1 beta cols y with
+               | Some cols' => cmsa_cov_loop beta cols' ys
+               | None => None
+               end
+  end.
+
+Definition cmsa_cov (mu cC : A) (cols : list vec) (steps : list vec) : option (list vec) :=
+  match chol_update (1 - 1 / cC) 0 cols [] with
+  | Some cols0 => cmsa_cov_loop (1 / mu * 1 / cC) cols0 steps
+  | None => None
+  end.
+
+(* sigmaNew = sum_i 1/mu * sigma_i *)
+Definition cmsa_sigma (mu : A) (sigmas : list A) : A :=
+  fold_left (fun s si => s + 1 / mu * si) sigmas 0.
+
+(* xPrimeNew = sum_i x_i / mu  (elementwise division) *)
+Definition cmsa_mean (n : nat) (mu : A) (xs : list vec) : vec :=
+  fold_left (fun m x => vadd m (map (fun a => a / mu) x)) xs (vzero n).
+
+Definition cmsa_update (n mu : nat) (cC : A) (cols : list vec)
+           (offspring : list (indiv (vec * (vec * A)))) : option (vec * A * list vec) :=
+  let sel := select mu offspring in
+  let muA := o_ofnat O mu in
+  match cmsa_cov muA cC cols (map (fun i => fst (snd (snd i))) sel) with
+  | Some cols' => Some (cmsa_mean n muA (map (fun i => fst (snd i)) sel),
+                        cmsa_sigma muA (map (fun i => snd (snd (snd i))) sel), cols')
+  | None => None
+  end.
+
+(* ---------------------------------------------------------------- CMAChromosome (ElitistCMA) *)
+Record chrom_consts := mkCC {
+  q_cp : A;        (* m_stepSizeLearningRate *)
+  q_d : A;         (* m_stepSizeDampingFactor *)
+  q_ptarget : A;   (* m_targetSuccessProbability *)
+  q_cc : A;        (* m_evolutionPathLearningRate *)
+  q_ccov : A;      (* m_covarianceMatrixLearningRate *)
+  q_cu : A;        (* m_covarianceMatrixUnlearningRate *)
+  q_pthresh : A }. (* m_successThreshold *)
+
+Record chrom := mkChrom {
+  h_L : list vec; h_pc : vec; h_step : vec; h_z : vec; h_sigma : A; h_psucc : A }.
+
+(* m_stepSize *= exp(1/d * (psucc - ptarget) / (1 - ptarget)) *)
+Definition chrom_sigma (k : chrom_consts) (sigma psucc : A) : A :=
+  sigma * o_exp O (1 / q_d k * (psucc - q_ptarget k) / (1 - q_ptarget k)).
+
+(* roundUpdate *)
+Definition chrom_round (k : chrom_consts) (c : chrom) (sigma psucc : A) : option chrom :=
+  let w := q_cc k * (o_two O - q_cc k) in
+  let pc := vscale (1 - q_cc k) (h_pc c) in
+  match chol_update (1 - q_ccov k + w) (q_ccov k) (h_L c) pc with
+  | Some L => Some (mkChrom L pc (h_step c) (h_z c) sigma psucc)
+  | None => None
+  end.
+
+Definition chrom_offspring (k : chrom_consts) (c : chrom) : option chrom :=
+  let psucc := (1 - q_cp k) * h_psucc c + q_cp k in
+  let sigma := chrom_sigma k (h_sigma c) psucc in
+  let w := q_cc k * (o_two O - q_cc k) in
+  if o_ltb O psucc (q_pthresh k) then
+    let pc := vadd (vscale (1 - q_cc k) (h_pc c)) (vscale (o_sqrt O w) (h_step c)) in
+    match chol_update (1 - q_ccov k) (q_ccov k) (h_L c) pc with
+    | Some L => Some (mkChrom L pc (h_step c) (h_z c) sigma psucc)
+    | None => None
+    end
+  else chrom_round k c sigma psucc.
+
+(* the guarded unlearning rate of updateAsParent *)
+Definition active_rate (cu zz : A) : A :=
+  if o_ltb O 1 zz && o_ltb O 1 (cu * (o_two O * zz - 1)) then 1 / (o_two O * zz - 1) else cu.
+
+Definition chrom_parent (k : chrom_consts) (s : success) (c : chrom) : option chrom :=
+  let ind := match s with Successful => 1 | _ => 0 end in
+  let psucc := (1 - q_cp k) * h_psucc c + q_cp k * ind in
+  let sigma := chrom_sigma k (h_sigma c) psucc in
+  match s with
+  | Failure =>
+    if o_ltb O psucc (q_pthresh k) then
+      let rate := active_rate (q_cu k) (normsqr (h_z c)) in
+      match chol_update (1 + rate) (0 - rate) (h_L c) (h_step c) with
+      | Some L => Some (mkChrom L (h_pc c) (h_step c) (h_z c) sigma psucc)
+      | None => None
+      end
+    else chrom_round k c sigma psucc
+  | _ => Some (mkChrom (h_L c) (h_pc c) (h_step c) (h_z c) sigma psucc)
+  end.
+
+(* one ElitistCMA::step on the strategy parameters, after mutate + evaluation: [c] holds the step just drawn *)
+Definition ecma_chrom_step (k : chrom_consts) (active : bool) (anc : list A) (pen : A) (c : chrom) : option chrom :=
+  match classify active anc pen with
+  | Successful => chrom_offspring k c
+  | s => chrom_parent k s c
+  end.
+
+(* ---------------------------------------------------------------- VDCMA::updateStrategyParameters *)
+Definition vmul (u v : vec) : vec := map2 (o_mul O) u v.
+Definition vdiv (u v : vec) : vec := map2 (o_div O) u v.
+Definition vmaxl (u : vec) : A :=
+  match u with [] => 0 | a :: t => fold_left (fun m b => if o_ltb O m b then b else m) t a end.
+Definition half : A := 1 / o_two O.
+
+Record vd_state := mkVd {
+  v_mean : vec; v_sigma : A; v_D : vec; v_vn : vec; v_normv : A; v_pc : vec; v_ps : vec; v_counter : nat }.
+
+(* computeSAndTFirst *)
+Definition vd_first (vn : vec) (normv : A) (y : vec) (st : vec * vec) (weight : A) : vec * vec :=
+  if eqb0 weight then st else
+  let yvn := dot y vn in
+  let normv2 := normv * normv in
+  let gammav := 1 + normv2 in
+  (vadd (fst st) (vscale weight (map (fun a => a - 1) (vsub (vmul y y) (vscale (normv2 / gammav * yvn) (vmul y vn))))),
+   vadd (snd st) (vscale weight (vsub (vscale yvn y) (vscale (half * (yvn * yvn + gammav)) vn)))).
+
+(* computeSAndTSecond *)
+Definition vd_second (vn : vec) (normv : A) (st : vec * vec) : vec * vec :=
+  let s := fst st in let t := snd st in
+  let two := o_two O in
+  let vn2 := vmul vn vn in
+  let normv2 := normv * normv in
+  let gammav := 1 + normv2 in
+  let alpha0 := o_sqrt O (normv2 * normv2 + (two * gammav - o_sqrt O gammav) / vmaxl vn2) / (two + normv2) in
+  let alpha := if o_ltb O 1 alpha0 then 1 else alpha0 in
+  let b := (0 - (1 - alpha * alpha)) * (normv2 * normv2) / gammav + two * (alpha * alpha) in
+  let Av := map (fun a => two - (b + two * (alpha * alpha)) * a) vn2 in
+  let invAvn2 := vdiv vn2 Av in
+  let s1 := vsub s (vscale (alpha / gammav) (vsub (vscale (two + normv2) (vmul vn t)) (vscale (normv2 * dot vn t) vn2))) in
+  let s2 := vsub (vdiv s1 Av) (vscale (b * dot s1 invAvn2 / (1 + b * dot vn2 invAvn2)) invAvn2) in
+  let t2 := vsub t (vscale alpha (vsub (vscale (two + normv2) (vmul vn s2)) (vscale (dot s2 vn2) vn))) in
+  (s2, t2).
+
+(* D += D * meanS *)
+Definition vd_D_update (D s : vec) : vec := vadd D (vmul D s).
+(* v = vn * normv + meanT / normv *)
+Definition vd_v_update (vn : vec) (normv : A) (t : vec) : vec := vadd (vscale normv vn) (map (fun a => a / normv) t).
+
+(* the covariance the sampler of VDCMA realises:  C = D (I + v v^T) D *)
+Definition vd_cov (D v : vec) : mat :=
+  map2 (fun di row => map2 (fun dj e => di * e * dj) D row)
+       D (map2 (fun (i : nat) vi => map2 (fun (j : nat) vj => (if Nat.eqb i j then 1 else 0) + vi * vj) (seq 0 (length v)) v)
+               (seq 0 (length v)) v).
+
+(* offspring payload: (search point x, chromosome y); [k] reuses the CMA constants record *)
+Definition vd_update (k : cma_consts) (n mu : nat) (ws : list A) (st : vd_state)
+           (offspring : list (indiv (vec * vec))) : vd_state :=
+  let sel := select mu offspring in
+  let xs := map (fun i => fst (snd i)) sel in
+  let ys := map (fun i => snd (snd i)) sel in
+  let counter := S (v_counter st) in                               (* m_counter++ in step() *)
+  let vn := v_vn st in let normv := v_normv st in
+  let m := recombine n ws xs in
+  let z0 := recombine n ws ys in
+  let b := 1 / o_sqrt O (1 + normv * normv) - 1 in
+  let z := vadd z0 (vscale (b * dot z0 vn) vn) in
+  let ps := vadd (vscale (1 - k_cSigma k) (v_ps st))
+                 (vscale (o_sqrt O (k_cSigma k * (o_two O - k_cSigma k) * k_muEff k)) z) in
+  let lhs := norm2 ps / o_sqrt O (1 - o_pow O (1 - k_cSigma k) (o_two O * o_ofnat O (S counter))) in
+  let rhs := (o_ofnat O 14 / o_ofnat O 10 + o_two O / (o_ofnat O n + 1)) * expected_chi n in
+  let hS := if o_ltb O lhs rhs then 1 else 0 in
+  let pc := vadd (vscale (1 - k_cC k) (v_pc st))
+                 (map (fun a => a / v_sigma st)
+                      (vscale (hS * o_sqrt O (k_cC k * (o_two O - k_cC k) * k_muEff k)) (vsub m (v_mean st)))) in
+  let st0 := fold_left (fun acc wy => vd_first vn normv (snd wy) acc (k_cMu k * fst wy))
+                       (combine (firstn mu ws) ys) (vzero n, vzero n) in
+  let st1 := vd_first vn normv (vdiv pc (v_D st)) st0 (hS * k_c1 k) in
+  let st2 := vd_second vn normv st1 in
+  let D := vd_D_update (v_D st) (fst st2) in
+  let v := vd_v_update vn normv (snd st2) in
+  let normv' := norm2 v in
+  let vn' := map (fun a => a / normv') v in
+  let sigma := v_sigma st * o_exp O ((k_cSigma k / k_dSigma k) * (norm2 ps / expected_chi n - 1)) in
+  mkVd m sigma D vn' normv' pc ps counter.
+
 End Model.
